@@ -82,5 +82,6 @@ var allProps = []string{"C01", "C02", "C03", "C04", "C05", "C06", "C07", "C08", 
 var notApplicable = map[string]string{}
 
 var engineKinds = map[string]string{
+	"routesim":  "real routing-mode stream handlers + shard manager between fake Temporal shards, in-memory gRPC-semantics streams, virtual time (testing/synctest), probe logger, online trace oracles",
 	"ringmodel": "real ring buffer vs reference model, exhaustive-bounded + random operation sequences",
 }
